@@ -55,7 +55,7 @@ PROPS = {
     },
     "C12": {
         "level": "proof",
-        "units": ["challenge", "transcripts"],
+        "units": ["challenge", "transcripts", "za_merchant"],
         "assumptions": [
             PER_INST,
             "SHA3-256 collision resistance (to go from 'transcript changes' to 'challenge changes'); fixed-width encodings to_bytes of scalars and points are injective (documented contract of bls12_381)",
